@@ -14,8 +14,8 @@ from jaqalpaq.parser import parse_jaqal_string
 
 from .. import gates
 
-PROPS_FILES = ["JaqalProofs/Props/C15.lean"]
-LAKE_TARGETS = ["JaqalProofs.Props.C15"]
+PROPS_FILES = ["JaqalProofs/Props/C15.lean", "JaqalProofs/Props/C03Unitary.lean", "JaqalProofs/Props/C08Outputs.lean"]
+LAKE_TARGETS = ["JaqalProofs.Props.C15", "JaqalProofs.Props.C03Unitary", "JaqalProofs.Props.C08Outputs"]
 TRUSTED = [
     "Lean 4.33 kernel; axioms of each theorem ⊆ {propext, Classical.choice, Quot.sound}",
     "hand-written model JaqalModel/Model/Result.lean of Readout.as_str, OutputParser string decoding, *_by_str views, accept_readout, ProbabilisticSubcircuit normalisation (over exact rationals)",
@@ -277,7 +277,7 @@ _g = make(
     pid="C15",
     props=PROPS_FILES,
     targets=LAKE_TARGETS,
-    diffs=[("harness.agents.res_diff", 600, 4000), ("harness.agents.c15_history", 400, 4000), ("harness.agents.c15_edge", 300, 3000), ("harness.agents.c15_scale", 300, 2000)],
+    diffs=[("harness.agents.res_diff", 600, 4000), ("harness.agents.c15_history", 400, 4000), ("harness.agents.c15_edge", 300, 3000), ("harness.agents.c15_scale", 300, 2000), ("harness.agents.outlist_diff", 1000, 8000, {"strings_and_ints_agree", "frequencies_count_own_readouts", "bool_outputs_count_as_ints", "one_readout_per_visit_in_order"})],
     trusted=[STD_TRUST] + TRUSTED[1:],
     assumptions=ASSUMPTIONS,
     extra_run=custom_run,
